@@ -1,4 +1,6 @@
 import SFV.Lemmas.JobDirs
+import SFV.Lemmas.DirReg
+import SFV.Gen.DirRegGuard
 /-! # C15 — each scheduled job gets its own existing working directories (bookkeeping model; **partial**)
 
 Proved on `SFV/Model/JobDirs.lean` for every sequence of scheduling requests. Partial: the real `mkdir`, `resolve` and
@@ -44,5 +46,36 @@ example : (run [⟨0, [0], 7, none, none, none⟩, ⟨1, [0], 7, none, none, non
                 ⟨3, [0], 7, none, none, some 99⟩]).jobs =
     [(0, [.gen 7 0, .gen 7 1, .gen 7 2]), (1, [.gen 7 3, .gen 7 4, .gen 7 5]), (2, [.gen 7 6, .gen 7 7, .fixed 99]),
      (3, [.gen 7 8, .gen 7 9, .fixed 99])] := by decide
+
+/-! ## the "already registered?" guard of the registration loop (generated: `SFV.Gen.regSameKey`) -/
+
+/-- **T**: the guard's query names both the deployment and the location, so only a registration on the SAME location answers it -/
+theorem gen_registration_guard_is_per_location :
+    ∀ l l' : DirReg.Loc, Gen.regSameKey l l' = true → l = l' := by
+  intro ⟨a, b⟩ ⟨c, d⟩
+  simp [Gen.regSameKey, Gen.regGuardByDeployment, Gen.regGuardByName]
+
+/-- **registered on every allocated location**: after the guarded registration loop (with the repository's guard) every one of
+    the job's directories is registered on every location of the allocation, whatever was registered before — also when
+    several locations belong to one deployment -/
+theorem dirs_registered_on_every_location (reg : List DirReg.Cell) (locs : List DirReg.Loc) (ds : List Dir)
+    (l : DirReg.Loc) (hl : l ∈ locs) (d : Dir) (hd : d ∈ ds) :
+    (l, d) ∈ DirReg.regLoop Gen.regSameKey reg (DirReg.cells locs ds) :=
+  DirReg.regLoop_complete _ gen_registration_guard_is_per_location _ _ _
+    (by simp only [DirReg.cells, List.mem_flatMap, List.mem_map]; exact ⟨l, hl, d, hd, rfl⟩)
+
+/-- nothing registered before is lost -/
+theorem registration_loop_monotone (reg cs : List DirReg.Cell) (c : DirReg.Cell) (h : c ∈ reg) :
+    c ∈ DirReg.regLoop Gen.regSameKey reg cs := DirReg.regLoop_mono _ c cs reg h
+
+/-- a guard that asks only for the deployment skips every location but the first of a deployment: job on locations 0 and 1
+    of deployment 0 — the directory is registered on (0,0) only -/
+theorem deployment_only_guard_skips_second_location :
+    ((0, 1), Dir.gen 7 0) ∉ DirReg.regLoop (fun l l' => l.1 == l'.1) [] (DirReg.cells [(0, 0), (0, 1)] [Dir.gen 7 0]) := by
+  decide
+
+/-- non-vacuity: two locations of one deployment and one of another, three directories: nine registrations -/
+example : (DirReg.regLoop Gen.regSameKey [] (DirReg.cells [(0, 0), (0, 1), (1, 0)] [Dir.gen 7 0, Dir.gen 7 1, Dir.gen 7 2])).length = 9 := by
+  decide
 
 end SFV.C15
